@@ -326,7 +326,7 @@ def addInstruments (tags : List (List UInt8 × List (List UInt8))) : List (List 
     | none => if isPitchKey k then .unmodelled "pitch-envelope" else addInstruments tags ks d
     | some id =>
       match (tags.lookup k).getD [] with
-      | [] => .unmodelled "empty-instrument-tag"
+      | [] => .err (mdsdrv_msg_no_ins_type.1 ++ toString id ++ mdsdrv_msg_no_ins_type.2)   -- `tag.empty()` (7061cba)
       | ty :: params =>
         let t := lowerStr (bytesStr ty)
         let put (tyv : Nat) : DataInfo :=
